@@ -74,8 +74,8 @@ PROP = {
             "anchors": [("crates/libs/sciparse/src/scion/address/addr.rs", ["parse_scion_addr"])],
             "functions": ["parse_scion_addr"],
             "harnesses": [
-                H("c15_scion_addr_split_n7", "B", bound="strings <= 7 bytes: fixed ISD-AS text `1-1` followed by <= 4 bytes over {0,1,f,-,:,',',x}; host grammar replaced by a recording stub",
-                  what="ISD-AS,host splitter: total; host part is exactly the text after the first comma up to the end", timeout=1800),
+                H("c15_scion_addr_split_n6", "B", bound="strings <= 6 bytes: fixed ISD-AS text `1-1` followed by <= 3 bytes over {0,1,f,-,:,',',x}; host grammar replaced by a recording stub",
+                  what="ISD-AS,host splitter: total; host part is exactly the text after the first comma up to the end", timeout=2400),
             ],
         },
     ],
